@@ -70,6 +70,29 @@ def bundle(ta, with_cp: bool = False) -> Dict[str, Any]:
     attempt("launch", lambda: {str(r): _rows(df) for r, df in ta.get_cuda_kernel_launch_stats(ranks=ranks, visualize=False).items()})
     attempt("iterations", lambda: {str(r): [int(x) for x in t.get_iterations(r)] for r in ranks})
     attempt("anno", lambda: _rows(ta.get_gpu_user_annotation_breakdown(visualize=False, num_kernels=2)))
+    def gka():
+        out = {}
+        for r in ranks:
+            df = ta.get_gpu_kernels_with_user_annotations(r, expand_names=True, shortern_names=False)
+            out[str(r)] = None if df is None else _rows(df, [c for c in ("index", "s_name", "s_user_annotation", "ts", "dur") if c in df.columns])
+        return out
+
+    attempt("kernels_with_annotations", gka)
+    attempt("queue_summary", lambda: _rows(ta.get_queue_length_summary(ranks).reset_index()))
+    attempt("membw_summary", lambda: _rows(ta.get_memory_bw_summary(ranks).reset_index()))
+    attempt("profiler_steps", lambda: [int(x) for x in ta.get_profiler_steps()])
+    attempt("cpu_anno", lambda: _rows(ta.get_gpu_user_annotation_breakdown(use_gpu_annotation=False, visualize=False, num_kernels=2)))
+
+    def freq():
+        import tempfile, shutil
+        d = tempfile.mkdtemp(prefix="htafreq_")
+        try:
+            return {op: _rows(ta.get_frequent_cuda_kernel_sequences(op, d, min_pattern_len=1, rank=ranks[0], top_k=5, visualize=False))
+                    for op in ("aten::op0", "aten::op1")}
+        finally:
+            shutil.rmtree(d, ignore_errors=True)
+
+    attempt("frequent_sequences", freq)
     if with_cp:
         def cp():
             out = {}
